@@ -34,7 +34,8 @@ Proof. exact decode_passes_checker_model. Qed.
 Print Assumptions decode_passes_checker.
 
 (* For EVERY sequence of constructor calls (NewPacket, then any mix of SetTimestamp, ResetTimestamp,
-   ClearData, NewData with arguments of the Go types: [op_ok]) in which every call returned nil: Bytes()
+   ClearData, NewData, and changes of ts.T on the object last handed to SetTimestamp, with arguments of the
+   Go types: [op_ok]) in which every call returned nil: Bytes()
    succeeds and decoding its output consumes exactly all of it and reproduces version, source id,
    sequence number, channel offset (as a uint32), shape, payload samples (same type and values; a packet
    built from an empty slice carries no payload bytes, so both sides hold zero samples) and the
@@ -66,13 +67,33 @@ Theorem constructors_never_panic : forall ops p,
 Proof. exact build_never_panics. Qed.
 Print Assumptions constructors_never_panic.
 
-(* the model's view of ANY construction passes the observable round-trip checker *)
-Theorem build_passes_checker : forall v src seq off ops num denom reads pret dreads dpret,
-  0 <= v < 256 -> 0 <= src < 4294967296 -> 0 <= seq < 4294967296 -> Forall op_ok ops ->
-  let '(b, rets) := model_build v src seq off ops num denom reads pret dreads dpret in
-  build_check rets b = true.
+(* Histories.  The model is STATELESS PER ENCODING: Bytes() and MakePretendPacket are functions of the
+   object's current fields and change nothing, and a change of the time-stamp object the caller handed to
+   SetTimestamp is just another step ([BMutTs], covered by [encode_decode] since every prefix of a history is
+   a call sequence).  For ANY history on one object — constructor calls, time-stamp changes, encodings at any
+   point (twice in a row, after further calls), fillers made from it and encoded — the model's results pass
+   the observable checker: every encoding decodes to the current fields of the encoded object. *)
+Theorem build_passes_checker : forall v src seq off h,
+  0 <= v < 256 -> 0 <= src < 4294967296 -> 0 <= seq < 4294967296 -> Forall hop_ok (map fst h) ->
+  build_check (combine (map fst h) (run_hist (new_packet v src seq off) h)) = true.
 Proof. exact build_passes_checker_model. Qed.
 Print Assumptions build_passes_checker.
+
+(* A filler packet made by MakePretendPacket(s, n), n <> 0, from any built packet round-trips as well: its
+   bytes decode to ITS sequence number s and ITS payload, with the original's shape, offset and counter. *)
+Theorem filler_round_trip : forall v src seq off ops num denom r rets s n,
+  0 <= src < 4294967296 -> 0 <= seq < 4294967296 -> Forall op_ok ops ->
+  build (new_packet v src seq off) ops = (r, rets) -> Forall (fun x => x = BRNil) rets ->
+  0 <= s < 4294967296 -> n <> 0 ->
+  exists p q bs q', r = Ok p /\ make_pretend p s n = Ok q /\ bytes_of num denom q = Ok bs /\
+    read_packet bs = (DOk q', zlen bs) /\
+    version q' = v /\ sourceID q' = src /\ sequenceNumber q' = s /\ offset q' = wrap32 off /\
+    shape q' = shape p /\
+    (data_count (pdat q) = 0 -> data_count (pdat q') = 0) /\
+    (data_count (pdat q) <> 0 -> pdat q' = pdat q) /\
+    timestamp_T q' = timestamp_T p.
+Proof. exact filler_round_trip_model. Qed.
+Print Assumptions filler_round_trip.
 
 (* The code as it was before the fixes: five datagrams that decode without error and then make an
    accessor panic (nil format, nil shape, word length 0, mixed format, channel count wrapped to 0). *)
